@@ -84,7 +84,8 @@ def xml_profile_base():
 XML_TRAJ_CLASSES = ["KSState", "STState", "MBState", "ExtendedPMState", "InitialState"]
 XML_CUSTOM_EXTRA = ["velocity", "acceleration", "yaw_rate", "slip_angle", "steering_angle", "curvature",
                     "curvature_rate", "jerk", "jounce", "velocity_y", "position_z"]
-PB_TRAJ_CLASSES = XML_TRAJ_CLASSES + ["KSTState", "STDState", "PMState"]
+PB_TRAJ_CLASSES = XML_TRAJ_CLASSES + ["STDState", "PMState"]   # the pb State message has no hitch_angle (KST)
+PB_CUSTOM_EXTRA = [f for f in XML_CUSTOM_EXTRA if f != "jounce"]
 
 
 def uncertain_value(field):
@@ -254,7 +255,9 @@ def file_scenario(draw, fmt="xml", max_lanelets=5, max_obstacles=4, max_pps=2, m
     prof["dim_lo"] = max(0.3, 30.0 * 10.0 ** (-d))
     prof["min_types"] = 1
     prof["traj_classes"] = XML_TRAJ_CLASSES if fmt == "xml" else PB_TRAJ_CLASSES
-    prof["custom_extra"] = XML_CUSTOM_EXTRA
+    prof["custom_extra"] = XML_CUSTOM_EXTRA if fmt == "xml" else PB_CUSTOM_EXTRA
+    if fmt == "pb":
+        prof["static_signals"] = True
     prof["signal_fields"] = gs.SIGNAL_FIELDS
     if extra_profile:
         prof.update(extra_profile)
@@ -262,8 +265,11 @@ def file_scenario(draw, fmt="xml", max_lanelets=5, max_obstacles=4, max_pps=2, m
     sid = draw(st.one_of(st.none(), gs.scenario_id_recipe()))
     country = "ZAM" if sid is None else sid["country_id"]
     ckey, enum_cls = sign_enum_for_country(country)
-    sign_names = sorted(m.name for m in enum_cls if str(m.value) != "" and (
-        fmt == "pb" or str(m.value) in prof["sign_values"]))
+    if fmt == "pb":
+        from crverif.gen.pbprofile import pb_sign_names
+        sign_names = pb_sign_names(enum_cls)
+    else:
+        sign_names = sorted(m.name for m in enum_cls if str(m.value) != "" and str(m.value) in prof["sign_values"])
     prof["sign_names"] = sign_names
     net = draw(gs.network_recipe(ids=ids, max_lanelets=max_lanelets, lim=lim, profile=prof))
     if sign_names:
